@@ -75,6 +75,7 @@ class GenElab:
     def history(self):
         rng = self.rng
         self.cid = self.sid = self.fk = 0
+        self.defined = {}
         ops = []
         nclasses = 0
         snap_pool = []
@@ -94,8 +95,13 @@ class GenElab:
             dbc = rng.random() < 0.85 if not bases else rng.random() < 0.1
             members = []
             used = set()
+            # names defined by the classes so far: overriding them is what exercises the merge
+            inherited = [nm for b in bases for nm in self.defined.get(b, [])]
             for _m in range(rng.choice([0, 1, 1, 2, 3])):
-                name = rng.choice(["f", "f", "g", "p", "__init__", "__new__", "__setattr__", "_priv", "__repr__"])
+                if inherited and rng.random() < 0.6:
+                    name = rng.choice(inherited)
+                else:
+                    name = rng.choice(["f", "f", "g", "p", "__init__", "__new__", "__setattr__", "_priv", "__repr__"])
                 if name in used:
                     continue
                 used.add(name)
@@ -106,7 +112,7 @@ class GenElab:
                         if not any(m["name"] == "p" and m["kind"] == acc for m in members):
                             members.append(self.member("p", acc, snap_pool=snap_pool))
                 elif name in ("f", "g"):
-                    kind = rng.choice(["plain", "plain", "plain", "static", "classm"])
+                    kind = rng.choice(["plain", "plain", "plain", "plain", "plain", "static", "classm"])
                     members.append(self.member(name, kind, snap_pool=snap_pool))
                 else:
                     members.append(self.member(name, "plain", snap_pool=snap_pool))
@@ -120,6 +126,7 @@ class GenElab:
                     invs.append({"contract": c, "check_on": rng.choice(["CALL", "CALL", "SETATTR", "ALL"]),
                                  "enabled": rng.random() > 0.1, "invalid": invalid})
             ops.append({"op": "class", "bases": bases, "dbc": dbc, "members": members, "invs": invs})
+            self.defined[nclasses] = sorted(set([m["name"] for m in members] + inherited))
             nclasses += 1
         return {"ops": ops, "names": NAMES}
 
